@@ -54,6 +54,10 @@ RISKY = [
     ["```{math}", ":label: eq1", "x", "```", "", "{eq}`eq1`"], ["$$x$$ (lbl)", "", "$$y$$ (lbl)"], ["![a](i.png){#im .c}", "![a](i.png){#im}"], ["[t]{#sp}", "[u]{#sp}"], ["```{code-block} c", ":name: cb", "x", "```"],
     ["term", ": def", "", "term", ": def2"], ["<div class=\"admonition\" name=\"hn\"><p class=\"title\">T</p>x</div>"], ["<img src=\"a.png\" name=\"hn\">", "", "<img src=\"b.png\" name=\"hn\">"],
     ["- [^li]: in list", "", "x[^li]"], ["> [^bq]: in quote", "", "x[^bq]"], ["[^1]: one", "[^2]: two", "", "a[^2] b[^1] c[^auto]", "", "[^auto]: A"], ["{{ k }}", "", "{{ k2 }}"], ["+++", "", "% c"],
+    # names shared between footnotes and later / earlier explicit targets of every kind
+    ["x[^nm] y[^ot]", "", "[^nm]: footnote", "", "[^ot]: other", "", "(nm)=", "para"], ["x[^nm]", "", "[^nm]: footnote", "", "{#nm}", "para"], ["x[^nm]", "", "[^nm]: footnote", "", "```{note}", ":name: nm", "b", "```"],
+    ["x[^nm]", "", "[^nm]: footnote", "", "$$a$$ (nm)"], ["(nm)=", "para", "", "x[^nm]", "", "[^nm]: footnote"], ["# nm", "", "x[^nm]", "", "[^nm]: footnote", "", "[](#nm)"], ["[^1]: one", "", "(1)=", "p", "", "x[^1] [](#1)"],
+    ["x[^a] y[^a]", "", "[^a]: A", "", "[^b]: B unreferenced", "", "(b)=", "p"],
 ]
 
 
